@@ -98,12 +98,16 @@ func run(tier string, sh *vkit.Shard, p *vkit.Part) {
 		if len(r.Viol) > 0 {
 			p.Count("ownership_violations_seen(C11)", 1)
 		}
-		if ex := m.Excluded(); ex != "" {
-			p.Count("not_judged: "+ex, 1)
+		if !n.Judged {
+			p.Count("not_judged: "+m.Dead(), 1)
 			p.Case(false, states, 1)
 			return
 		}
-		p.Count("judged", 1)
+		if n.Partial {
+			p.Count("judged_partially (return values only): "+m.Excluded(), 1)
+		} else {
+			p.Count("judged", 1)
+		}
 		big := 0
 		for _, w := range r.Writes {
 			if w >= 65536 {
@@ -123,12 +127,13 @@ func run(tier string, sh *vkit.Shard, p *vkit.Part) {
 		} else {
 			p.Count("identity", 1)
 		}
-		nontrivial := m.Body > 0 || m.Level == 3 || m.Hdr0["Trailer"] != ""
+		nontrivial := !n.Partial && (m.Body > 0 || m.Level == 3 || m.Hdr0["Trailer"] != "")
 		p.Case(nontrivial, states, 1)
 		vs := n.Verdicts
 		p.Outcome(respgen.OutcomeClass(m, r, vs))
-		if len(vs) > 0 && len(n.Fresh) == 0 {
-			p.Count("programs_failing_only_clauses_inherited_from_their_prefix", 1)
+		if len(vs) > 0 && n.Tainted {
+			p.Count("failing_programs_not_reported_because_a_prefix_already_failed", 1)
+			return
 		}
 		if len(vs) == 0 {
 			if m.Body >= 65536 {
@@ -136,10 +141,13 @@ func run(tier string, sh *vkit.Shard, p *vkit.Part) {
 			}
 			return
 		}
-		if len(n.Fresh) > 0 {
-			sig := respgen.Signature(n.Fresh, n.Prog, r)
+		{
+			sig, minimal := respgen.Sign(env, n, x.Opt)
 			text := n.Prog.String()
-			for _, v := range n.Fresh {
+			if len(minimal.Ops) != len(n.Prog.Ops) {
+				text += "\n  minimal failing program: " + minimal.String()
+			}
+			for _, v := range vs {
 				text += fmt.Sprintf("\n  %s: %s", v.Clause, v.Detail)
 			}
 			p.Report(sig, text, "program", input{Program: n.Prog, Text: text})
@@ -204,19 +212,23 @@ func replay(scenario string, in json.RawMessage) string {
 		head = head[:400]
 	}
 	fmt.Printf("wire (%d bytes) starts: %q\n", len(r.Wire), head)
-	if ex := m.Excluded(); ex != "" {
-		fmt.Println("not judged:", ex)
+	if !n.Judged {
+		fmt.Println("not judged:", m.Dead())
 		return ""
 	}
+	if n.Partial {
+		fmt.Println("judged partially (return values only):", m.Excluded())
+	}
 	var out []string
-	if len(n.Fresh) > 0 {
-		out = append(out, "signature: "+respgen.Signature(n.Fresh, n.Prog, n.R))
-		for _, v := range n.Fresh {
+	if n.Tainted {
+		fmt.Println("a proper prefix of this program already fails; the explorer does not report this program")
+	}
+	if len(n.Verdicts) > 0 {
+		sig, minimal := respgen.Sign(env, n, respgen.RunOpt{Policy: track.Pooled})
+		out = append(out, "signature: "+sig, "  minimal failing program: "+minimal.String())
+		for _, v := range n.Verdicts {
 			out = append(out, "  "+v.Clause+": "+v.Detail)
 		}
-	}
-	for _, v := range n.Verdicts {
-		fmt.Printf("failed clause (all, including inherited): %s: %s\n", v.Clause, v.Detail)
 	}
 	return strings.Join(out, "\n")
 }
